@@ -306,7 +306,7 @@ theorem totalAwarded_nonneg (q : Rat) (ae : Bool) (votes : Votes) : 0 ≤ C02.to
     parties of the votes, no key twice, and never more than `n` seats unless the caller chose `'ignore'`; the only
     refusal is the declared `VotingSystemError` of policy `'error'`.  (Reading of DESIGN 12.2: the distributor is
     documented as not filling the house, so "exactly n" reads "at most n".) -/
-theorem qd_shape (cfg : Cfg) (votes : Votes) (n : Nat) (hwf : C02.WF votes [])
+theorem qd_shape_pos (cfg : Cfg) (votes : Votes) (n : Nat) (hwf : C02.WF votes [])
     (hq : 0 < cfg.quota (sumVals votes) n) (hpol : cfg.onOver ≠ .subtract) :
     (∀ res, quotaDistribute cfg votes n [] [] = .ok res →
         DistShapeI (keys votes) res ∧ (sumK res ≤ n ∨ cfg.onOver = .ignore)) ∧
@@ -336,7 +336,7 @@ theorem qd_shape (cfg : Cfg) (votes : Votes) (n : Nat) (hwf : C02.WF votes [])
     subtract loop): positive awards to parties of the votes or ties of them, no key twice, **exactly `n` seats**
     (unless the caller chose `'ignore'` and the whole quotas alone exceed the house); the only refusal is the declared
     `VotingSystemError` of policy `'error'`. -/
-theorem lr_shape (cfg : Cfg) (votes : Votes) (n : Nat) (hwf : C02.WF votes [])
+theorem lr_shape_pos (cfg : Cfg) (votes : Votes) (n : Nat) (hwf : C02.WF votes [])
     (hq : 0 < cfg.quota (sumVals votes) n) (hlen : n ≤ votes.length) (hpol : cfg.onOver ≠ .subtract) :
     (∀ res, largestRemainder cfg votes n [] [] = .ok res →
         DistShapeI (keys votes) res ∧ (sumK res = n ∨ (cfg.onOver = .ignore ∧ (n : Int) < sumK res))) ∧
@@ -388,13 +388,74 @@ theorem quota_pos (V : Rat) (n : Nat) (hV : 0 < V) :
     have : (0 : Rat) < n := by exact_mod_cast hn
     positivity
 
-/-- **open finding** (C08-lr-rounded-quota-zero): the two *rounded* quotas are 0 when the votes are fewer than half
-    the seats (resp. seats+1); `Fraction(v, 0)` then raises `ZeroDivisionError`, which is not a declared refusal.
-    Full statement that fails: `lr_shape` without the hypothesis `0 < quota`. -/
-theorem lr_rounded_quota_zero_witness :
-    largestRemainder ⟨Gen.Quota.hare_rounded, true, .error⟩ [(0, 1), (1, 0), (2, 0)] 3 [] [] = .error zeroDiv ∧
-    largestRemainder ⟨Gen.Quota.hagenbach_bischoff_rounded, true, .error⟩ [(0, 1), (1, 0), (2, 0)] 3 [] [] = .error zeroDiv ∧
-    quotaDistribute ⟨Gen.Quota.hare_rounded, true, .error⟩ [(0, 1), (1, 0), (2, 0)] 3 [] [] = .error zeroDiv := by
+/-- **QuotaDistributor, every quota function** (since fix eca6e34 a non-positive quota is refused with the declared
+    `VotingSystemError` instead of dividing by zero): under the policies 'error' and 'ignore' every answer has the
+    distribution shape with at most `n` seats (unless 'ignore'), and EVERY error outcome is `VotingSystemError` — raised
+    exactly for a non-positive quota or by the policy 'error'. -/
+theorem qd_shape (cfg : Cfg) (votes : Votes) (n : Nat) (hwf : C02.WF votes []) (hpol : cfg.onOver ≠ .subtract) :
+    (∀ res, quotaDistribute cfg votes n [] [] = .ok res →
+        DistShapeI (keys votes) res ∧ (sumK res ≤ n ∨ cfg.onOver = .ignore)) ∧
+    (∀ e, quotaDistribute cfg votes n [] [] = .error e →
+        e = .votingSystemError ∧ (cfg.quota (sumVals votes) n ≤ 0 ∨ cfg.onOver = .error)) := by
+  rcases lt_or_ge 0 (cfg.quota (sumVals votes) n) with hq | hq
+  · obtain ⟨h1, h2⟩ := qd_shape_pos cfg votes n hwf hq hpol
+    exact ⟨h1, fun e he => ⟨(h2 e he).1, Or.inr (h2 e he).2⟩⟩
+  · rw [(C02.qd_refuses_nonpositive_quota cfg votes n [] [] hq).1]
+    exact ⟨fun res h => (by cases h), fun e h => (by injection h with h; exact ⟨h.symm, Or.inl hq⟩)⟩
+
+/-- **LargestRemainder, every quota function** (`1 ≤ n ≤ #parties`, policies 'error' and 'ignore'): every answer has the
+    distribution shape with exactly `n` seats (unless 'ignore' and the whole quotas alone exceed the house), and EVERY
+    error outcome is the declared `VotingSystemError` (non-positive quota, or policy 'error'). -/
+theorem lr_shape (cfg : Cfg) (votes : Votes) (n : Nat) (hwf : C02.WF votes []) (hlen : n ≤ votes.length)
+    (hpol : cfg.onOver ≠ .subtract) :
+    (∀ res, largestRemainder cfg votes n [] [] = .ok res →
+        DistShapeI (keys votes) res ∧ (sumK res = n ∨ (cfg.onOver = .ignore ∧ (n : Int) < sumK res))) ∧
+    (∀ e, largestRemainder cfg votes n [] [] = .error e →
+        e = .votingSystemError ∧ (cfg.quota (sumVals votes) n ≤ 0 ∨ cfg.onOver = .error)) := by
+  rcases lt_or_ge 0 (cfg.quota (sumVals votes) n) with hq | hq
+  · obtain ⟨h1, h2⟩ := lr_shape_pos cfg votes n hwf hq hlen hpol
+    exact ⟨h1, fun e he => ⟨(h2 e he).1, Or.inr (h2 e he).2⟩⟩
+  · rw [(C02.qd_refuses_nonpositive_quota cfg votes n [] [] hq).2]
+    exact ⟨fun res h => (by cases h), fun e h => (by injection h with h; exact ⟨h.symm, Or.inl hq⟩)⟩
+
+/-- **the refusal clause of the largest-remainder family in full**: whatever the quota function and the over-award
+    policy (incl. the subtract loop, `ShapeQuotaSubtract`), the only error outcome of `evaluate(votes, n)` is the declared
+    `VotingSystemError`. -/
+theorem lr_refusals (cfg : Cfg) (votes : Votes) (n : Nat) (hwf : C02.WF votes []) (e : Err) :
+    (quotaDistribute cfg votes n [] [] = .error e → e = .votingSystemError) ∧
+    (largestRemainder cfg votes n [] [] = .error e → e = .votingSystemError) := by
+  rcases lt_or_ge 0 (cfg.quota (sumVals votes) n) with hq | hq
+  · by_cases hpol : cfg.onOver = .subtract
+    · exact ⟨fun h => absurd h ((qd_subtract_refusals cfg votes n hwf hq hpol).2 e),
+        fun h => absurd h ((lr_subtract_refusals cfg votes n hwf hq hpol).2 e)⟩
+    · exact ⟨fun h => ((qd_shape_pos cfg votes n hwf hq hpol).2 e h).1, by
+        intro h
+        -- `lr_shape_pos` needs `n ≤ #parties` only for the seat total; the error analysis does not
+        unfold largestRemainder at h
+        cases hqd : quotaDistribute cfg votes n [] [] with
+        | error e' =>
+          rw [hqd] at h
+          injection h with h
+          subst h
+          exact ((qd_shape_pos cfg votes n hwf hq hpol).2 e' hqd).1
+        | ok r =>
+          rw [hqd] at h
+          simp only at h
+          split at h
+          · rename_i h0; exact absurd h0.1 (ne_of_gt hq)
+          · cases h⟩
+  · obtain ⟨h1, h2⟩ := C02.qd_refuses_nonpositive_quota cfg votes n [] [] hq
+    rw [h1, h2]
+    exact ⟨fun h => (by injection h with h; exact h.symm), fun h => (by injection h with h; exact h.symm)⟩
+
+/-- (fixed finding C08-lr-rounded-quota-zero, eca6e34) the two *rounded* quotas are 0 when the votes are fewer than half
+    the seats (resp. seats+1): the request is now refused with the declared `VotingSystemError` (it used to raise
+    `ZeroDivisionError` from `Fraction(v, 0)`). -/
+theorem lr_quota_nonpositive_refused :
+    largestRemainder ⟨Gen.Quota.hare_rounded, true, .error⟩ [(0, 1), (1, 0), (2, 0)] 3 [] [] = .error .votingSystemError ∧
+    largestRemainder ⟨Gen.Quota.hagenbach_bischoff_rounded, true, .error⟩ [(0, 1), (1, 0), (2, 0)] 3 [] [] =
+      .error .votingSystemError ∧
+    quotaDistribute ⟨Gen.Quota.hare_rounded, true, .error⟩ [(0, 1), (1, 0), (2, 0)] 3 [] [] = .error .votingSystemError := by
   refine ⟨?_, ?_, ?_⟩ <;> decide +kernel
 
 /-- non-vacuity: Droop with a tie for the last seat; Imperiali over-awarding -/
